@@ -61,7 +61,8 @@ const TRACE_WORDS: &[&str] = &[
 
 #[derive(Default)]
 struct Tables {
-    markers: BTreeMap<String, i32>,
+    // denomination -> (marker type, status, required attributes)
+    markers: BTreeMap<String, (i32, i32, Vec<String>)>,
     attrs: BTreeMap<String, Vec<String>>,
 }
 
@@ -82,9 +83,9 @@ fn new_deps(tables: &Rc<RefCell<Tables>>) -> Deps {
                 Ok(r) => r,
                 Err(_) => return sys_err("undecodable QueryMarkerRequest"),
             };
-            let kind = t.borrow().markers.get(&req.id).copied();
+            let kind = t.borrow().markers.get(&req.id).cloned();
             let resp = match kind {
-                Some(marker_type) => {
+                Some((marker_type, status, required_attributes)) => {
                     let m = MarkerAccount {
                         base_account: Some(BaseAccount {
                             address: "marker".into(),
@@ -94,14 +95,14 @@ fn new_deps(tables: &Rc<RefCell<Tables>>) -> Deps {
                         }),
                         manager: "".into(),
                         access_control: vec![],
-                        status: 3,
+                        status,
                         denom: req.id.clone(),
                         supply: "1".into(),
                         marker_type,
                         supply_fixed: false,
                         allow_governance_control: true,
                         allow_forced_transfer: false,
-                        required_attributes: vec![],
+                        required_attributes,
                     };
                     QueryMarkerResponse {
                         marker: Some(Any {
@@ -172,7 +173,7 @@ fn restore(snap: &Snap) -> MockStorage {
 enum Ev {
     NewHistory,
     Env(Tables),
-    Inst { sender: String, msg: InstantiateMsg },
+    Inst { sender: String, funds: Vec<Coin>, msg: InstantiateMsg },
     Exec { probe: bool, sender: String, funds: Vec<Coin>, msg: ExecuteMsg },
     Query(QueryMsg),
     Migrate { probe: bool, msg: MigrateMsg },
@@ -190,9 +191,17 @@ fn parse_env(t: &mut Toks) -> PResult<Tables> {
     if m != "[]" {
         for item in m.split(',') {
             let (d, k) = item.split_once('=').ok_or(Malformed)?;
+            // R / U: restricted / coin marker, active, no required attributes; the variants keep the type and vary
+            // the fields the contract is meant to ignore: a = required attributes, p = proposed, c = cancelled, d = destroyed
             let kind = match k {
-                "R" => 2,
-                "U" => 1,
+                "R" => (2, 3, vec![]),
+                "U" => (1, 3, vec![]),
+                "Ra" => (2, 3, vec!["kyc.passport.pb".to_string()]),
+                "Ua" => (1, 3, vec!["kyc.passport.pb".to_string()]),
+                "Rp" => (2, 1, vec![]),
+                "Rc" => (2, 4, vec![]),
+                "Rd" => (2, 5, vec![]),
+                "Ud" => (1, 5, vec![]),
                 _ => return Err(Malformed),
             };
             if tables.markers.insert(dec_str(d)?, kind).is_some() {
@@ -346,7 +355,9 @@ fn parse_event(line: &str) -> PResult<Ev> {
     let ev = match word {
         "H" => Ev::NewHistory,
         "ENV" => Ev::Env(parse_env(&mut t)?),
-        "INST" => {
+        "INST" | "INSTF" => {
+            // INSTF <coins> <INST fields>: the same instantiate call with funds attached (the contract ignores them)
+            let funds = if word == "INSTF" { t.coins()? } else { vec![] };
             let sender = t.string()?;
             let msg = InstantiateMsg {
                 name: t.string()?,
@@ -365,7 +376,7 @@ fn parse_event(line: &str) -> PResult<Ev> {
                 size_increment: t.uint()?,
             };
             t.end()?;
-            Ev::Inst { sender, msg }
+            Ev::Inst { sender, funds, msg }
         }
         "EXEC" | "PEXEC" => {
             let sender = t.string()?;
@@ -794,12 +805,12 @@ impl<W: Write> Runner<W> {
             Ev::Env(t) => {
                 *self.tables.borrow_mut() = t;
             }
-            Ev::Inst { sender, msg } => {
+            Ev::Inst { sender, funds, msg } => {
                 let before = snapshot(&self.deps.storage);
                 let r = self.guarded(|deps| {
                     let bytes = to_vec(&msg).map_err(|e| e.to_string())?;
                     let msg: InstantiateMsg = from_slice(&bytes).map_err(|e| e.to_string())?;
-                    let info = MessageInfo { sender: Addr::unchecked(sender), funds: vec![] };
+                    let info = MessageInfo { sender: Addr::unchecked(sender), funds };
                     instantiate(deps.as_mut(), mock_env(), info, msg).map_err(|e| e.to_string())
                 });
                 self.finish_response(r, false, before, true);
